@@ -70,6 +70,22 @@ MonSoftFail(p, q, mktSame, vaultSame) ==
 MonExecOutcome(p, o, ok, q) ==
   (ok /\ o.op = "execute" /\ p.st[o.a] = "pending") => Terminal(q.st[o.a])
 
+(* "exactly once": only a PENDING action can be executed - a successful execution of an action that
+   is already completed or cancelled would complete / cancel it a second time *)
+MonExecOnce(p, o, ok) ==
+  (ok /\ o.op = "execute" /\ o.a \in ActionsOf(p)) => p.st[o.a] = "pending"
+
+(* a terminal action that stays open keeps what it holds for its owner: the lamports (unused
+   execution fee, rent) and the escrowed tokens are not reduced by anything but its close *)
+MonTerminalKept(p, q) ==
+  \A a \in ActionsOf(p) :
+    (Terminal(p.st[a]) /\ q.st[a] = p.st[a]) =>
+      /\ q.lam[a] >= p.lam[a]
+      /\ q.esc[a] >= p.esc[a] /\ q.out[a] >= p.out[a] /\ q.out2[a] >= p.out2[a]
+
+(* ActionState::completed / cancelled called on a terminal state must fail *)
+MonDirectTerminal(from, ok) == Terminal(from) => ~ok
+
 (* hard failure: the whole instruction is rolled back *)
 MonHardFail(ok, p, q, worldSame) == ~ok => (worldSame /\ q = p)
 
